@@ -81,6 +81,9 @@ def marker_paths(seq):
 
 def run(report, index, tier):
     M = models(index)
+    from .c20 import guard_tokens, guard_transcriptions
+    guard_tokens(report, index, M)
+    guard_transcriptions(index, M, report, depth=2)
     D, A, lm = M.definitions, M.actions, M.lexmodel
     obf = index.need(OBF)
     T = Tables(index)
